@@ -18,7 +18,7 @@ NUM_META = {"derived": True, "references": {}, "type": {"class": "numeric", "int
 
 
 class CellWorld:
-    def __init__(self, eng, specs, weighted=True, u_concrete=3, prefix="", w_strict=False):
+    def __init__(self, eng, specs, weighted=True, u_concrete=3, prefix="", w_strict=False, u_strict=False):
         """specs as in common.World; weighted counts are free reals >= 0 per wire cell.
         u_concrete: int -> every unweighted wire cell holds that number; None -> symbolic unweighted counts."""
         self.eng = eng
@@ -35,7 +35,7 @@ class CellWorld:
             else:
                 self.W[idx] = eng.real("%sw%d" % (prefix, n), lo=0)
             if u_concrete is None:
-                self.U[idx] = eng.real("%su%d" % (prefix, n), lo=0)
+                self.U[idx] = eng.real("%su%d" % (prefix, n), strict_lo=0) if u_strict else eng.real("%su%d" % (prefix, n), lo=0)
             else:
                 self.U[idx] = float(u_concrete) if not eng.symbolic else int(u_concrete)
         self.weighted = weighted
